@@ -7,7 +7,9 @@ tie: C through hook H2 (tools/hooks/H2.patch: guarded op log in hyperedgeimprove
 mtst.cpp): checks/c12lib.py replays every logged operation on the extracted model and compares (see there); V - the extracted
 checker is_tree_with_leaves is run on the real connector/junction graph after every transaction (rerouting registered by
 junction or by terminal list, both improvement options, further shape moves), plus route-end and new/deleted-list oracles.
-Without the hook in the tree under test only the V part runs and the evidence says so."""
+Without the hook in the tree under test only the V part runs and the evidence says so.
+Client API stream (scene op RMJ): JunctionRef::removeJunctionAndMergeConnectors on a junction with exactly two connectors inside a chain of
+junctions (gen_chain_scene), oracle = the same tree / attachment checker with the removed junction gone (Coq: remove_junction_preserves)."""
 import os, json, copy
 from vlib import common as C
 from checks import c12lib as L
@@ -57,6 +59,8 @@ class Scene:
                     out.append('APPLYREC %d' % dx)
                 elif s == -2:    # (-2, j, 0): late registration of the hyperedge at junction j for full rerouting
                     out.append('REROUTE_J %d' % dx)
+                elif s == -3:    # (-3, j, 0): the client removes junction j (exactly two connectors) with removeJunctionAndMergeConnectors()
+                    out.append('RMJ %d' % dx)
                 else:
                     out.append('MOVE %d %d %d' % (s, dx, dy))
             out.append('TX')
@@ -167,6 +171,101 @@ def gen_rec_scene(rng, sid, **kw):
     return sc
 
 
+def gen_chain_scene(rng, sid, kind=None, orient=None, opt=None):
+    """client API JunctionRef::removeJunctionAndMergeConnectors: a chain of 2..4 junctions J0 - J1 - .. between 3..7 terminals; one junction R has
+    exactly two connectors - kind 'JJ': an interior junction without terminals (both neighbours are junctions), kind 'TJ': an end junction with a
+    single terminal (neighbours: a terminal and a junction).  orient: bit 0 / bit 1 = the first / second connector of R runs R -> neighbour (1)
+    or neighbour -> R (0), so P->J, J->P, J->J in both directions all occur; the connectors are created in random order (the order decides which
+    of the two the library deletes).  History: route; RMJ R (alone or with a shape move), transaction; then further transactions: shape moves,
+    `apply recommended positions`, removal of another junction that has two connectors by then."""
+    opt = rng.below(3) if opt is None else opt
+    sc = Scene(sid, opt, 4)
+    kind = kind or rng.choice(['JJ', 'JJ', 'TJ'])
+    orient = rng.below(4) if orient is None else orient
+    k = rng.range(3, 4) if kind == 'JJ' else rng.range(2, 4)
+    r = rng.range(1, k - 2) if kind == 'JJ' else rng.choice([0, k - 1])
+    nterm = []
+    for i in range(k):
+        if i == r:
+            nterm.append(0 if kind == 'JJ' else 1)
+        elif i in (0, k - 1):
+            nterm.append(rng.range(2, 3))
+        else:
+            nterm.append(rng.choice([0, 1, 1, 2]))
+    while sum(nterm) > 7:
+        i = max(range(k), key=lambda q: nterm[q])
+        nterm[i] -= 1
+    boxes = []
+    for t in range(sum(nterm)):
+        for tries in range(400):
+            x, y = rng.below(115) * 5, rng.below(115) * 5
+            if all(abs(bx - x) > 35 and abs(by - y) > 35 for bx, by in boxes):
+                break
+        boxes.append((x, y))
+    sc.shapes = boxes
+    for i in range(k):
+        for tries in range(200):
+            jx, jy = rng.below(119) * 5 + 2, rng.below(119) * 5 + 3
+            if all(not (bx - 5 <= jx <= bx + 35 and by - 5 <= jy <= by + 35) for bx, by in boxes) and \
+               all(abs(jx - px) > 10 or abs(jy - py) > 10 for px, py in sc.juncs):
+                break
+        sc.juncs.append((jx, jy))
+    conns, t = [], 0
+    at_r = []
+    for i in range(k):
+        for _ in range(nterm[i]):
+            conns.append([('S', t, 1), ('J', i), i == r])
+            t += 1
+        if i + 1 < k:
+            conns.append([('J', i), ('J', i + 1), i == r or i + 1 == r])
+    which = 0
+    out = []
+    for a, b, touches in conns:
+        if touches:
+            other, me = (a, b) if b == ('J', r) else (b, a)
+            fwd = (orient >> which) & 1
+            which += 1
+            out.append((me, other) if fwd else (other, me))
+        else:
+            out.append((a, b) if rng.chance(1, 2) else (b, a))
+    sc.conns = rng.shuffle(out)
+    # model of the junction degrees, to pick further removable junctions
+    degs = {i: nterm[i] + (1 if i > 0 else 0) + (1 if i + 1 < k else 0) for i in range(k)}
+    alive = set(range(k))
+
+    def shape_move():
+        s_ = rng.below(len(boxes))
+        dx, dy = (rng.range(0, 4) - 2) * 20 + rng.range(-1, 1) * 5, (rng.range(0, 4) - 2) * 20 + rng.range(-1, 1) * 5
+        nx, ny = boxes[s_][0] + dx, boxes[s_][1] + dy
+        if (dx or dy) and all(q == s_ or (abs(bx - nx) > 35 and abs(by - ny) > 35) for q, (bx, by) in enumerate(boxes)) and \
+                all(not (nx - 5 <= jx <= nx + 35 and ny - 5 <= jy <= ny + 35) for jx, jy in sc.juncs):
+            boxes[s_] = (nx, ny)
+            return [(s_, dx, dy)]
+        return []
+    first = [(-3, r, 0)]
+    if rng.chance(1, 3):
+        first = (shape_move() + first) if rng.chance(1, 2) else (first + shape_move())
+    if rng.chance(1, 4):
+        sc.moves.append(shape_move() or [(-1, 0, 0)])           # a transaction before the removal
+    sc.moves.append(first)
+    alive.discard(r)
+    for _ in range(rng.range(1, 3)):
+        cand = [i for i in sorted(alive) if degs[i] == 2 and len(alive) >= 2]
+        what = rng.below(4)
+        if what == 0 and cand:
+            j = rng.choice(cand)
+            sc.moves.append([(-3, j, 0)])
+            alive.discard(j)
+        elif what == 1:
+            sc.moves.append([(-1, 0 if rng.chance(3, 4) else 1, 0)])
+        else:
+            mv = shape_move()
+            if mv:
+                sc.moves.append(mv)
+    sc.family = 'rmj_%s_orient%d_opt%d' % (kind, orient, opt)
+    return sc
+
+
 def twin(sc):
     """same scene without improvement: its first transaction shows the tree *before* improvement (classifier input)"""
     t = copy.deepcopy(sc)
@@ -228,6 +327,10 @@ def parse_harness(txt):
             tx[w[0].lower()] = [int(v) for v in w[1:]]
         elif w[0] == 'ASSERT':
             cur['assert'] = line[7:]
+        elif w[0] == 'RMJ' and cur is not None:
+            # client call JunctionRef::removeJunctionAndMergeConnectors(): (junction id, merged connector | -1 = refused, deleted connector,
+            # number of attached connector ends before the call, index of the transaction that follows)
+            cur.setdefault('rmj', []).append((int(w[1]), int(w[2]), int(w[3]), int(w[4]) if len(w) > 4 else -1, len(cur['tx'])))
         elif w[0] == 'RECMOVE' and cur is not None:
             # client move of a junction to its recommendedPosition(), queued for the transaction that follows: (id, no-op?, from, to)
             cur.setdefault('recmoves', []).append((int(w[1]), w[2] == '1', (float(w[3]), float(w[4])), (float(w[5]), float(w[6])), len(cur['tx'])))
@@ -488,10 +591,13 @@ def judge(sc, o, graphs, answers, pre, stats):
                          last_op_log_records_before_the_assertion=tail), fpa))
     for rm in o.get('recmoves', []):
         stats['recommended_moves_noop' if rm[1] else 'recommended_moves_changed'] += 1
+    for rj in o.get('rmj', []):
+        # (the library refuses - returns nullptr - unless the junction has exactly two connectors; -2: improvement had already deleted it)
+        stats['junction_removals_performed' if rj[1] >= 0 else 'junction_removals_refused'] += 1
     T = sc.terminals()
     gi = 0
     tlist_reported = False
-    ood = shape_moved_over_junction(sc, o) if sc.family.startswith('rec_') else None     # (earlier families keep their full judgement)
+    ood = shape_moved_over_junction(sc, o) if sc.family.startswith(('rec_', 'rmj_')) else None     # (earlier families keep their full judgement)
     o['out_of_domain_from'] = ood
     if ood is not None:
         stats['scenes_left_domain_shape_moved_over_junction'] = stats.get('scenes_left_domain_shape_moved_over_junction', 0) + 1
@@ -674,7 +780,7 @@ def evaluate(scenes, res=None):
     byid = {sc.sid: (sc, o, g, a) for sc, o, g, a in results}
     stats = {k: 0 for k in ('transactions', 'connectors', 'route_ends', 'list_checks', 'tree_bad', 'tlist_unattached', 'h2_sections', 'h2_improve',
                             'h2_reroute', 'h2_commands', 'h2_ops', 'h2_skipped', 'h2_sections_agree', 'h2_problem_sections',
-                            'recommended_moves_noop', 'recommended_moves_changed')}
+                            'recommended_moves_noop', 'recommended_moves_changed', 'junction_removals_performed', 'junction_removals_refused')}
     fam, all_bad, samples = {}, [], []
     stats['tree_bad_by_family'] = {}
     for sc, o, g, a in results:
@@ -742,6 +848,16 @@ def run(tier):
     for i in range(n // 3):
         r = rng.fork()
         scenes.append(gen_rec_scene(r, 'rec%d' % i, mode=r.below(2), generic=True))
+    # client API stream: JunctionRef::removeJunctionAndMergeConnectors on a junction with two connectors (chains of 2..4 junctions), every
+    # orientation of its two connectors x both neighbour kinds x every improvement option first, then random ones
+    i = 0
+    for kind in ('JJ', 'TJ'):
+        for orient in range(4):
+            for opt in range(3):
+                scenes.append(gen_chain_scene(rng.fork(), 'rmjd%d' % i, kind=kind, orient=orient, opt=opt))
+                i += 1
+    for i in range(n // 3):
+        scenes.append(gen_chain_scene(rng.fork(), 'rmj%d' % i))
     all_bad, stats, fam, samples, crashed = evaluate(scenes)
     report(res, all_bad)
     unknown = [b for b in all_bad if b[1] is None or not res.known_fingerprint(b[1])]
@@ -809,14 +925,23 @@ META = {
                 'verified checker accepts the BEFORE and AFTER trees with the (renamed) terminal leaves, the terminals at the leaves are unchanged, '
                 'and smooth(AFTER) is the connector/junction graph the router holds after write-back; MTST: every laid edge joins two components, '
                 'the terminal-set count and roots agree with the tree built so far. Tie V: the extracted checker on the real connector/junction graph '
-                'after every transaction, route-end and new/deleted-list oracles.',
+                'after every transaction, route-end and new/deleted-list oracles. Client API (JunctionRef::removeJunctionAndMergeConnectors): '
+                'remove_junction (the two connectors of a degree-2 junction become one connector between its neighbours) keeps the invariant and '
+                'every other degree (C12_remove_junction_preserves), also inside arbitrary histories of abstract operations (C12_client_ops); leaving '
+                'the surviving connector on the deleted junction splits the hyperedge (C12_remove_junction_wrong_end_refuted).',
         'design_ref': 'DESIGN.md 5.12'},
     'level_note': 'proof of the operation set the code performs, tied by an op-log correspondence (hook H2, tools/hooks/H2.patch; when the tree under test '
                   'lacks the hook the run degrades to the V part and the evidence says "hook H2 missing: op-log correspondence skipped"). Not carried '
                   'through the model: connector labels of tree edges (checked on the dumped trees: the edges of one connector form a path between '
                   'junction nodes / connector ends) and geometry (zero-length / common-edge preconditions are compared on the logged points); the '
-                  'segment shifting between structural edits moves points only and is not modelled; JunctionRef::removeJunctionAndMergeConnectors '
-                  '(client API, not called by the scenes) is not logged. Trusted: Coq kernel, extraction, OCaml/C++ drivers, the hook\'s print '
+                  'segment shifting between structural edits moves points only and is not modelled. The client API JunctionRef::removeJunctionAndMergeConnectors '
+                  '(scene op RMJ: chains of 2-4 junctions, a junction with exactly two connectors is taken out - both neighbours junctions, or a terminal and a '
+                  'junction; all four orientations of its two connectors, connectors created in random order; alone or with a shape move, followed by further '
+                  'moves / recommended positions / removal of another junction) is modelled by remove_junction (C12_remove_junction_preserves, C12_client_ops for '
+                  'histories mixing it with the abstract improver / rerouter operations, C12_remove_junction_wrong_end_refuted = the defect of leaving the '
+                  'surviving connector on the deleted junction) and tied by the V part only (it is not logged by hook H2: the oracle is the verified tree / '
+                  'attachment checker over the unchanged terminal set with the removed junction gone, plus the list oracle with the client\'s own deletions '
+                  'taken out of the known sets). Trusted: Coq kernel, extraction, OCaml/C++ drivers, the hook\'s print '
                   'statements, checks/c12lib.py (log parsing, node naming). Oracle calibration of the V part: live = not queued for removal; junction '
                   'ends at position() or recommendedPosition(); shape ends inside or on the shape; route orientation not required. Classified streams '
                   '(known findings re-found every run; since round 3 also `apply recommended positions` histories: moveJunction(j, recommendedPosition()) for every '
